@@ -33,6 +33,7 @@ let handle (line : string) : string =
 let () =
   Extra.register handle;
   Extra.add (fun line -> Cmd_doc.handle !the_cfg line);
+  Extra.add (fun line -> Cmd_num.handle !the_cfg line);
   try
     while true do
       let line = input_line stdin in
